@@ -881,6 +881,9 @@ ARITH_ERR = re.compile(r"'error'\('(instantiation_error|type_error'\('evaluable'
 LIST_GOAL = re.compile(r"'/'\('\.',2\)|'/'\(\[\],0\)|'type_error'\('callable',(\[|\"|'\.'\()")
 
 
+IMPROPER = re.compile(r"'\.'\(")      # showTerm prints proper lists as [..]: '.'( only for partial/improper lists
+
+
 def is_arith_error(item):
     return item[0] == 'exc' and ARITH_ERR.match(item[1]) is not None
 
@@ -895,7 +898,7 @@ def out_of_domain(mi, ii):
     iits = ii[0] if isinstance(ii, tuple) else []
     for its in (mits, iits):
         for x in its:
-            if x[0] == 'exc' and LIST_GOAL.search(x[1]):
+            if LIST_GOAL.search(x[1]):      # as the ball, or caught and reported inside an answer
                 return 'skip-domain'
     for k, x in enumerate(iits):
         if x[0] == 'exc' and x[1].startswith("'error'('type_error'('list',") and (k >= len(mits) or mits[k] != x):
@@ -948,6 +951,9 @@ def judge_query(c, model_res, impl_res, loaded):
         return 'problem', ("load-failed", "consulting the program gave: %s" % loaded)
     ii = impl_items2(impl_res)
     if ii is None:
+        if (impl_res or "").startswith("panic(attempt to subtract") and IMPROPER.search(model_res or ""):
+            # the harness cannot print a partial list whose tail is an atom or a number (canon.rs)
+            return 'skip-domain', None
         return 'problem', ("uninterpretable", "implementation result: %s" % impl_res)
     if ii != 'hang':
         sk = out_of_domain(mi, ii)
